@@ -942,6 +942,7 @@ class HistogramBase(abc.ABC):
         if isinstance(other, HistogramBase):
             if other.ndim != self.ndim:
                 raise ValueError("Cannot add histograms with different dimensions.")
+            stats = getattr(self, "_stats", None)  # (Assigning the contents resets them)
             if self.has_same_bins(other):
                 # print("Has same!!!!!!!!!!")
                 self._coerce_dtype(other.dtype)
@@ -967,8 +968,8 @@ class HistogramBase(abc.ABC):
                 self.errors2 = self.errors2 + other.errors2
             else:
                 raise ValueError("Incompatible binning")
-            if hasattr(self, "_stats") and hasattr(other, "_stats"):
-                self._stats += other._stats
+            if stats is not None and hasattr(other, "_stats"):
+                self._stats = stats + other._stats
         elif config.free_arithmetics:
             array = np.asarray(other)
             self._coerce_dtype(array.dtype)
@@ -1027,11 +1028,12 @@ class HistogramBase(abc.ABC):
                 self._coerce_dtype(array.dtype)
             except ValueError as v:
                 raise TypeError(str(v)) from v
+            stats = getattr(self, "_stats", None)  # (Assigning the contents resets them)
             self.frequencies = self.frequencies * scalar
             self.errors2 = self.errors2 * scalar**2
             self._missed = self._missed * scalar
-            if hasattr(self, "_stats"):
-                self._stats = self._stats * scalar
+            if stats is not None:
+                self._stats = stats * scalar
         elif config.free_arithmetics:  # Treat other as array-like
             array = np.asarray(other)
             self._coerce_dtype(array.dtype)
@@ -1058,11 +1060,12 @@ class HistogramBase(abc.ABC):
         elif np.isscalar(other):
             reciprocal = 1 / other  # Fails for zero before anything is modified
             self._coerce_dtype(np.float64)
+            stats = getattr(self, "_stats", None)  # (Assigning the contents resets them)
             self.frequencies = self.frequencies / other
             self.errors2 = self.errors2 / other**2
             self._missed /= other
-            if hasattr(self, "_stats"):
-                self._stats *= reciprocal
+            if stats is not None:
+                self._stats = stats * reciprocal
         elif config.free_arithmetics:  # Treat other as array-like
             self._coerce_dtype(np.float64)
             array = np.asarray(other)
